@@ -179,6 +179,16 @@ void GMGPolar::solve()
             std::chrono::duration<double>(end_solve_multigrid_iterations - start_solve_multigrid_iterations).count();
     }
 
+    /* The error figures reported after solve() describe the returned solution: the loop records the error of an
+     * iterate before it is improved, so the last iterate is still missing when the iteration limit ended the loop
+     * (in particular after a solve without any iteration). */
+    if (exact_solution_ != nullptr && static_cast<int>(exact_errors_.size()) <= number_of_iterations_) {
+        auto start_check_exact_error = std::chrono::high_resolution_clock::now();
+        exact_errors_.push_back(computeExactError(level, level.solution(), level.residual()));
+        auto end_check_exact_error = std::chrono::high_resolution_clock::now();
+        t_check_exact_error += std::chrono::duration<double>(end_check_exact_error - start_check_exact_error).count();
+    }
+
     if (number_of_iterations_ > 0) {
         /* --------------------------------------------- */
         /* Compute the average Multigrid Iteration times */
